@@ -333,7 +333,16 @@ pub fn c17_worker(ctx: &mut Ctx) {
             Err(f) => {
                 // a panic inside the tree (incl. the step budget of its loops: a loop that no longer terminates)
                 disarm_splay();
-                Err((format!("the tree did not complete the history: {:?}", f), vec![]))
+                let msg = format!("{:?}", f);
+                if msg.contains("@src/") {
+                    // the panic location is in the harness crate itself (its paths are relative), not in the library:
+                    // a harness error, never a violation
+                    ctx.notes.push(format!("HARNESS-ERROR panic in the monitor: {}", msg));
+                    ctx.cnt("harness_errors", 1);
+                    Ok(())
+                } else {
+                    Err((format!("the tree did not complete the history: {}", msg), vec![]))
+                }
             }
         };
         if let Err((m, log)) = hist {
